@@ -1099,6 +1099,10 @@ func (rg *Range) productFacts(facts []Lin) []Lin {
 				if rg.entails(facts, q.minus(A)) {
 					out = append(out, xl.minus(pa))
 				}
+				// A + 1 <= q  =>  A*e + e = (A+1)*e <= q*e <= x
+				if rg.entails(facts, q.minus(A).addConst(-1)) {
+					out = append(out, xl.minus(pa).minus(e))
+				}
 			}
 			// A >= 0 => A*e >= 0 ; A >= 1 => A*e >= e
 			if rg.entails(facts, A) {
